@@ -24,13 +24,13 @@ TolDn(tol) == FMul(tol, FOfDec("0.999999"))
 SameStep(h1, h2) == FLe(FAbs(FSub(h1, h2)), FMul(FOfDec("1e-9"), FAbs(h2)))
 KBdf == FOfInt(20)
 
-VARIABLES i, cc, win, dh, ch, n
-vars == <<i, cc, win, dh, ch, n>>
+VARIABLES i, cc, win, cands, n
+vars == <<i, cc, win, cands, n>>
 (* win : previous points [t, y], oldest first (at most 8), starting with the initial condition
-   dh  : Adams derivative history (PEC), oldest first;  ch : spacing of the current chain
+   cands : candidate Adams derivative histories [dh (PEC, oldest first), ch (spacing of the chain)]
    n   : number of items seen in this run *)
 
-Init == i = 0 /\ cc = [solver |-> "none"] /\ win = <<>> /\ dh = <<>> /\ ch = F0 /\ n = 0
+Init == i = 0 /\ cc = [solver |-> "none"] /\ win = <<>> /\ cands = {} /\ n = 0
 
 Push(w, p) == IF Len(w) >= 8 THEN Tail(w) \o <<p>> ELSE Append(w, p)
 Tab(solver) == IF solver = "rk45" THEN Fehlberg45 ELSE BogackiShampine32
@@ -53,28 +53,38 @@ RkBad(e, prev, y) ==
   \cup RkFirst(e, prev)
 
 \* ---- Adams ------------------------------------------------------------------------------------
-\* returns [bad, dh, ch]
+\* The derivative history is not observable from the yielded points, and a point can be explained both
+\* ways at once (an RK4 restarting step lands within rounding of the predictor-corrector value of a chain
+\* that happens to continue with the same spacing).  The validator therefore carries the SET of
+\* candidate histories  [dh, ch]  that explain the path so far; a point is reported only when no candidate
+\* explains it, and the estimate conjunct only when every explanation is a predictor-corrector step whose
+\* estimate exceeds the tolerance.
+\* returns [bad, cands, act]
 AdamsStep(e, prev, y) ==
   LET h == FSub(e.t, prev.t)
       m == AdamsSteps(cc.solver)
-      canPc == Len(dh) = m /\ SameStep(h, ch)
-      Rk4Branch ==
-        IF Approx(y, Rk4(cc.rhs, prev.t, prev.y, h))
-         THEN Bind(Rhs(cc.rhs, e.t, y), LAMBDA f :
-                 [bad |-> {},
-                  dh |-> IF Len(dh) > 0 /\ SameStep(h, ch)
-                           THEN (IF Len(dh) >= m THEN Tail(dh) \o <<f>> ELSE Append(dh, f))
-                           ELSE <<f>>,
-                  ch |-> h, act |-> "Rk4Start"])
-         ELSE [bad |-> {"point_is_rk4_start_or_adams_predictor_corrector_step"},
-               dh |-> <<Rhs(cc.rhs, e.t, y)>>, ch |-> h, act |-> "none"]
-  IN IF canPc
-       THEN Bind(AdamsPc(cc.solver, cc.rhs, prev.t, prev.y, h, dh), LAMBDA pc :
-              IF Approx(y, pc.corr)
-                THEN [bad |-> IF FLe(pc.est, TolUp(cc.tol)) THEN {} ELSE {"predictor_corrector_estimate_within_tolerance"},
-                      dh |-> Tail(dh) \o <<pc.fpred>>, ch |-> ch, act |-> "Pc"]
-                ELSE Rk4Branch)
-       ELSE Rk4Branch
+  IN Bind(Rhs(cc.rhs, e.t, y), LAMBDA f :
+     Bind(Approx(y, Rk4(cc.rhs, prev.t, prev.y, h)), LAMBDA isRk :
+       \* an RK4 step extends a start-up in progress (same spacing, history not yet full); otherwise it
+       \* begins a new chain (the solvers clear their history whenever they restart)
+       LET rkOf(c) == [dh |-> IF Len(c.dh) > 0 /\ Len(c.dh) < m /\ SameStep(h, c.ch) THEN Append(c.dh, f) ELSE <<f>>,
+                       ch |-> h]
+           rkC == IF isRk THEN {rkOf(c) : c \in cands} ELSE {}
+           pcOf(c) == IF Len(c.dh) = m /\ SameStep(h, c.ch)
+                        THEN Bind(AdamsPc(cc.solver, cc.rhs, prev.t, prev.y, h, c.dh), LAMBDA pc :
+                               IF Approx(y, pc.corr)
+                                 THEN {[dh |-> Tail(c.dh) \o <<pc.fpred>>, ch |-> c.ch, ok |-> FLe(pc.est, TolUp(cc.tol))]}
+                                 ELSE {})
+                        ELSE {}
+       IN Bind(UNION {pcOf(c) : c \in cands}, LAMBDA pcAll :
+            LET pcC == {[dh |-> x.dh, ch |-> x.ch] : x \in pcAll} IN
+            IF rkC = {} /\ pcC = {}
+              THEN [bad |-> {"point_is_rk4_start_or_adams_predictor_corrector_step"},
+                    cands |-> {[dh |-> <<f>>, ch |-> h]}, act |-> "none"]
+              ELSE [bad |-> IF rkC = {} /\ \A x \in pcAll : ~x.ok
+                              THEN {"predictor_corrector_estimate_within_tolerance"} ELSE {},
+                    cands |-> rkC \cup pcC,
+                    act |-> IF pcC = {} THEN "Rk4Start" ELSE IF rkC = {} THEN "Pc" ELSE "Pc|Rk4Start"])))
 
 \* ---- BDF --------------------------------------------------------------------------------------
 EquallySpaced(w, m, tnew, h) ==
@@ -99,7 +109,7 @@ EulerBad(e, prev, y) ==
 
 Step(e) ==
   CASE e.ev = "reset" ->
-         /\ cc' = e /\ win' = <<[t |-> e.t0, y |-> Re(e.y0)]>> /\ dh' = <<>> /\ ch' = F0 /\ n' = 0
+         /\ cc' = e /\ win' = <<[t |-> e.t0, y |-> Re(e.y0)]>> /\ cands' = {[dh |-> <<>>, ch |-> F0]} /\ n' = 0
     [] e.ev = "item" ->
          LET prev == win[Len(win)]
              y == Re(e.y)
@@ -108,20 +118,20 @@ Step(e) ==
             /\ UNCHANGED cc
             /\ IF cc.solver \in {"rk45", "rk23"}
                  THEN /\ \E bad \in {RkBad(e, prev, y)} : bad # {} => PrintT(<<"VIOL", i + 1, bad>>)
-                      /\ UNCHANGED <<dh, ch>>
+                      /\ UNCHANGED cands
                ELSE IF cc.solver \in {"adams5", "adams3"}
                  THEN \E r \in {AdamsStep(e, prev, y)} :
                          /\ r.bad # {} => PrintT(<<"VIOL", i + 1, r.bad>>)
-                         /\ dh' = r.dh /\ ch' = r.ch
+                         /\ cands' = r.cands
                          /\ PrintT(<<"ACT", r.act>>)
                ELSE IF cc.solver \in {"bdf6", "bdf2"}
                  THEN \E r \in {BdfStep(e, prev, y)} :
                          /\ r.bad # {} => PrintT(<<"VIOL", i + 1, r.bad>>)
                          /\ PrintT(<<"ACT", r.act>>)
-                         /\ UNCHANGED <<dh, ch>>
+                         /\ UNCHANGED cands
                ELSE /\ \E bad \in {EulerBad(e, prev, y)} : bad # {} => PrintT(<<"VIOL", i + 1, bad>>)
-                    /\ UNCHANGED <<dh, ch>>
-    [] OTHER -> UNCHANGED <<cc, win, dh, ch, n>>
+                    /\ UNCHANGED cands
+    [] OTHER -> UNCHANGED <<cc, win, cands, n>>
 
 Next == /\ i < Len(Obs)
         /\ i' = i + 1
